@@ -200,6 +200,24 @@ pub fn valid_case(cx: &mut Ctx, n: u64, case: &Value) {
                             Ok((false, errs)) if errs.contains("NonFiniteCoord(Exterior") => cx.ok("non_finite_is_invalid"),
                             other => cx.bad("C14", "non_finite_is_invalid", case, json!({"what": format!("exterior[{k}].x = {bad}"), "got": format!("{other:?}")})),
                         }
+                        // the reported index names a coordinate OF THE CALLER'S RING that is not finite - also when vertices are
+                        // repeated in front of it (every vertex of the ring written twice)
+                        for doubled in [false, true] {
+                            let ring: Vec<geo::Coord<f64>> = if doubled { q.exterior().0.iter().flat_map(|c| [*c, *c]).collect() } else { q.exterior().0.clone() };
+                            let qq = Polygon::new(geo::LineString::new(ring.clone()), p.interiors().to_vec());
+                            let ring: Vec<geo::Coord<f64>> = qq.exterior().0.clone();       // as held by the polygon (Polygon::new may append a closing coordinate)
+                            let r2 = guard(|| qq.validation_errors().iter().map(|e| format!("{e:?}")).collect::<Vec<_>>());
+                            let ok = match &r2 {
+                                Ok(errs) => {
+                                    let idx: Vec<usize> = errs.iter().filter(|e| e.starts_with("NonFiniteCoord(Exterior")).filter_map(|e| e.split("CoordIndex(").nth(1).and_then(|t| t.split(')').next()).and_then(|t| t.trim().parse().ok())).collect();
+                                    !idx.is_empty() && idx.iter().all(|i| *i < ring.len() && !(ring[*i].x.is_finite() && ring[*i].y.is_finite()))
+                                }
+                                Err(_) => false,
+                            };
+                            if ok { cx.ok("non_finite_index_names_the_coordinate"); } else {
+                                cx.bad("C14", "non_finite_index_names_the_coordinate", case, json!({"what": format!("exterior[{k}].x = {bad}, every vertex repeated: {doubled}"), "ring": ring.iter().map(|c| format!("{} {}", c.x, c.y)).collect::<Vec<_>>(), "got": format!("{r2:?}")}));
+                            }
+                        }
                     }
                 }
                 Err(pn) => cx.bad("C14", "polygon_is_valid", case, json!({"got": format!("PANIC {pn}")})),
